@@ -412,8 +412,44 @@ func (ex *Exec) lhsType(l ast.Expr) types.Type {
 	return ex.typeOf(l)
 }
 
+// globalRoot: the package-level variable a store target is rooted at (x.f, x[i], *x, x[i].f ...), or nil.
+func (ex *Exec) globalRoot(e ast.Expr) *types.Var {
+	for {
+		switch x := unparen(e).(type) {
+		case *ast.SelectorExpr:
+			if _, ok := ex.P.Info.Selections[x]; !ok {
+				// qualified identifier pkg.Var
+				if v, ok := ex.P.Info.Uses[x.Sel].(*types.Var); ok && v.Pkg() != nil && v.Parent() == v.Pkg().Scope() {
+					return v
+				}
+				return nil
+			}
+			e = x.X
+		case *ast.IndexExpr:
+			e = x.X
+		case *ast.StarExpr:
+			e = x.X
+		case *ast.SliceExpr:
+			e = x.X
+		case *ast.Ident:
+			if v, ok := ex.P.Info.Uses[x].(*types.Var); ok && v.Pkg() != nil && v.Parent() == v.Pkg().Scope() {
+				return v
+			}
+			return nil
+		default:
+			return nil
+		}
+	}
+}
+
 // assignTo stores v into the location denoted by lhs.
 func (ex *Exec) assignTo(st *State, lhs ast.Expr, v Val) {
+	if _, isId := unparen(lhs).(*ast.Ident); !isId {
+		if g := ex.globalRoot(lhs); g != nil {
+			// C20: a store through a package-level variable (table entry, shared object) is shared mutable state
+			ex.obligNoAssume(st, "global-write", lhs, "store into memory reached from package-level variable "+g.Name()+": "+ex.exprStr(lhs), False)
+		}
+	}
 	switch l := unparen(lhs).(type) {
 	case *ast.Ident:
 		if l.Name == "_" {
